@@ -78,8 +78,10 @@ fn sound(xot: &Xot, node: xot::Node, is_doc: bool, text: &str, fails: &mut Vec<F
                     format!("{:?} accepted as {}, serialised as {:?}, rejected: {:?}", text, a.show(), out, e),
                 )),
                 Ok(n2) => {
+                    // "reparses deep-equal": deep equality does not look at declarations (the serialiser may drop a
+                    // redundant xmlns:xml="http://www.w3.org/XML/1998/namespace"); that declarations survive is C01's
                     let b = read(&x2, n2);
-                    if let Some(d) = diff_class(&norm(&a), &norm(&b)) {
+                    if let Some(d) = diff_class(&norm(&a.without_decls()), &norm(&b.without_decls())) {
                         fails.push(Fail::new(format!("accepted-unsound|reserialisation-differs|{}", d), format!("{:?} accepted as {}, serialised as {:?}, reparsed as {}", text, a.show(), out, b.show())));
                     }
                 }
@@ -530,7 +532,30 @@ pub fn run(tier: Tier) -> i32 {
             }
         }));
     }
-    if let Err(e) = require_nonzero(&stats, &["raw_strings", "token_strings", "damaged_texts", "byte_strings", "encoding_cases", "reference_cases", "accepted", "rejected", "accepted_and_compared"]) {
+    // (f) reserved names: every sequence of <= 4 fragments from a menu built around the xml / xmlns prefixes, the XML
+    //     namespace, prefix undeclaring and processing instructions called xml. Whatever is accepted must still be a
+    //     sound tree (serialises, is accepted again, reparses equal).
+    {
+        const XMLNS: &str = "http://www.w3.org/XML/1998/namespace";
+        let menu: Vec<String> = vec![
+            "<a".into(), "<p:a".into(), "<xml:a".into(), ">".into(), "/>".into(), "</a>".into(), "</p:a>".into(), "</xml:a>".into(),
+            " xmlns:p=''".into(), " xmlns:p='X'".into(), " xmlns:xml='X'".into(), format!(" xmlns:xml='{}'", XMLNS), " xmlns:xmlns='X'".into(),
+            format!(" xmlns:p='{}'", XMLNS), format!(" xmlns='{}'", XMLNS), " xmlns:p='http://www.w3.org/2000/xmlns/'".into(),
+            " p:k='1'".into(), " xml:k='1'".into(), " xmlns:k='1'".into(), "<?xml d?>".into(), "<?XML d?>".into(), "<?xml?>".into(), "<?xml\td?>".into(), "<?xml-x d?>".into(), "t".into(),
+        ];
+        let refs: Vec<&str> = menu.iter().map(|s| s.as_str()).collect();
+        let fl = tier.pick(4, 5);
+        let fnn = strings_count(refs.len() as u64, fl);
+        stats = stats.merge(par_range(&ctx, fnn, |i, st| {
+            let t = nth_str(&refs, fl, i);
+            let fails = eval_text(&t, st);
+            st.bump("reserved_name_strings");
+            for f in fails {
+                st.fail(&Case::Text(t.clone()), f);
+            }
+        }));
+    }
+    if let Err(e) = require_nonzero(&stats, &["raw_strings", "token_strings", "damaged_texts", "byte_strings", "encoding_cases", "reference_cases", "reserved_name_strings", "accepted", "rejected", "accepted_and_compared"]) {
         eprintln!("MACHINERY: {}", e);
         return 2;
     }
@@ -540,7 +565,7 @@ pub fn run(tier: Tier) -> i32 {
         "evaluations": stats.evals,
         "distinct_nontrivial": total,
         "samples": samples,
-        "rule": format!("(a) every string of length <= {} over 18 markup symbols; (b) every sequence of <= {} fragments from a 39-item token menu (tags with synonymous prefixes, duplicate attributes / declarations, references incl. &#0; &#xD800; &#+65;, comments, PIs, CDATA, ]]>, DOCTYPEs, XML declarations 1.0 / 1.1); (c) every single-character deletion / duplication / replacement / insertion / truncation and 13 structural edits (incl. every end tag rewritten under another prefix / without prefix) of the default spellings of the C02 documents and of their spellings with one other prefix choice (thorough: of all their one-deviation spellings); (d) every byte string of length <= {} and 8 BOMs x 40 encoding labels x 3 bodies; (e) every code point 0..=0x110000 as a hexadecimal character reference in text, and decimal / hexadecimal / zero-padded references to the code points within 2 of every boundary of the XML Char production in text, attribute values and namespace URIs; each to parse and parse_fragment (text) / parse_bytes; oracle: no panic; texts the reference recogniser XmlRead classifies ill-formed for a reason in the property's catalogue are rejected; whatever is accepted equals the reference reader's tree (when it has one), passes validate_well_formed_document, has unique attributes / declarations, serialises, and reparses equal; distinct = distinct (entry point, resulting tree or error variant)", l, tl, bl),
+        "rule": format!("(a) every string of length <= {} over 18 markup symbols; (b) every sequence of <= {} fragments from a 39-item token menu (tags with synonymous prefixes, duplicate attributes / declarations, references incl. &#0; &#xD800; &#+65;, comments, PIs, CDATA, ]]>, DOCTYPEs, XML declarations 1.0 / 1.1); (c) every single-character deletion / duplication / replacement / insertion / truncation and 13 structural edits (incl. every end tag rewritten under another prefix / without prefix) of the default spellings of the C02 documents and of their spellings with one other prefix choice (thorough: of all their one-deviation spellings); (d) every byte string of length <= {} and 8 BOMs x 40 encoding labels x 3 bodies; (f) every sequence of <= {} fragments from a 25-item menu around the reserved names (xml / xmlns prefixes, the XML and xmlns namespaces, xmlns:p='', processing instructions called xml); (e) every code point 0..=0x110000 as a hexadecimal character reference in text, and decimal / hexadecimal / zero-padded references to the code points within 2 of every boundary of the XML Char production in text, attribute values and namespace URIs; each to parse and parse_fragment (text) / parse_bytes; oracle: no panic; texts the reference recogniser XmlRead classifies ill-formed for a reason in the property's catalogue are rejected; whatever is accepted equals the reference reader's tree (when it has one), passes validate_well_formed_document, has unique attributes / declarations, serialises, and reparses equal; distinct = distinct (entry point, resulting tree or error variant)", l, tl, bl, tier.pick(4, 5)),
     });
     ctx.finish(stats, cov, vec!["XmlRead answers Unknown for anything it does not positively classify; only IllFormed(reason in catalogue) creates an obligation".into(), "a process abort (stack overflow, allocation failure) would surface as a machinery error of the driver, never as a pass".into()])
 }
